@@ -1615,6 +1615,17 @@ func gen(w *bufio.Writer, args map[string]string) {
 			exhaustive(w, 8, 5) // a glob that comes to match nothing under a forced run, then the same files again
 		}
 		crashFamily(w, 2, 1, 8, quickTears, 4)
+		// a forced run records what it ran on — also for files that are reached through a symbolic link to a directory
+		linkedSrcFamily(w, 3)
+		for _, t := range []int{7, 0, 3} {
+			all, f := "A", "4"
+			if t == 0 {
+				all, f = "AB", "3"
+			} else if t == 3 {
+				f = "3"
+			}
+			fmt.Fprintf(w, "T%dl w.%s.1 r.%s.1.- w.%s.2 r.%s.0.- r.%s.0.- w.%s.1 r.%s.1.- r.%s.0.-\n", t, f, all, f, all, all, f, all, all)
+		}
 		// a forced run on changed inputs that is cut short or cannot write the cache, then the revert: --force never
 		// licenses a later skip on inputs the task did not complete on
 		for _, t := range []int{1, 2} {
